@@ -9,7 +9,8 @@
 (*   sets    the outcomes of the shuffles of the fold generator, per       *)
 (*           variant object (empty without cross-validation)               *)
 (*   fit     every fitter call of the repetition: model, decoded training  *)
-(*           object (source rows, condition sequence), index list          *)
+(*           object (source rows, condition sequence), index list, the     *)
+(*           method / pattern_descriptor keywords, other keywords          *)
 (*   compare every call of evaluate.compare: model, decoded prediction     *)
 (*           conditions, decoded data rows / conditions, the similarity    *)
 (*           values (integers x 1e6), global call numbers                  *)
@@ -49,6 +50,9 @@ FitsOk(fits, th) ==
        ELSE /\ Len(fits[v]) = NCalls(v)
             /\ \A k \in 1..NCalls(v) : LET x == fits[v][k]  t == th[v][FoldAt(v, k)][ModelAt(k)] IN
                  /\ x.j = ModelAt(k) /\ x.rows = t.rows /\ x.conds = t.conds /\ x.pidx = t.pidx
+                 \* every keyword argument of the fitter call: the routine's comparison method, the routine's
+                 \* pattern descriptor, nothing else
+                 /\ x.meth = t.meth /\ x.desc = t.desc /\ x.kw = <<>>
 
 CmpsOk(cmps, pe) ==
   /\ Len(cmps) = NVar(rc)
